@@ -31,7 +31,17 @@ section
 variable (hashOf : Nat → Bytes → Bytes) (shake256 : Bytes → Nat → Bytes)
 
 /-- seed → SHAKE256(seed, 96) → SK_SEED ‖ SK_PRF ‖ PUB_SEED; leaves; tree. -/
-def refKey (seed : Bytes) (h hf : Nat) : RefKey :=
+def refKeyD (seed : Bytes) (d : Desc) : RefKey :=
+  let rb := shake256 seed 96
+  let skSeed := rb.take 32
+  let pubSeed := (rb.drop 64).take 32
+  let leaves := (List.range (2 ^ d.height)).map (fun i => genLeafWOTS (hashOf d.hashFn) wp16 skSeed pubSeed i)
+  { h := d.height, hf := d.hashFn, desc := d, skSeed := skSeed, skPRF := (rb.drop 32).take 32, pubSeed := pubSeed,
+    levels := levelsFrom (hashOf d.hashFn) pubSeed d.height 0 leaves }
+
+def refKey (seed : Bytes) (h hf : Nat) : RefKey := refKeyD hashOf shake256 seed ⟨hf, 0, h, 0⟩
+
+def refKeyOld (seed : Bytes) (h hf : Nat) : RefKey :=
   let rb := shake256 seed 96
   let skSeed := rb.take 32
   let pubSeed := (rb.drop 64).take 32
@@ -45,7 +55,7 @@ def refSign (k : RefKey) (idx : Nat) (msg : Bytes) : Outcome Bytes := do
   let r := prf hash (toBytesBE idx 32) k.skPRF
   let msgHash := hMsg hash msg (r ++ k.root ++ toBytesBE idx 32)
   let wsig ← wotsSign hash wp16 msgHash (getSeed hash k.skSeed idx) k.pubSeed idx
-  let auth := (List.range k.h).map (fun j => (k.levels.getD j []).getD ((idx >>> j) ^^^ 1) (zeros 32))
+  let auth := (List.range k.h).map (fun j => (k.levels.getD j []).getD (Bds.sib (idx >>> j)) (zeros 32))
   pure (toBytesBE idx 4 ++ r ++ wsig.flatten ++ auth.flatten)
 end
 
